@@ -24,7 +24,7 @@ var orderedCollections = []string{"tags", "servers", "userTypes", "userEnums", "
 
 // compareCatalog compares an actual catalog JSON with the expected skeleton: content (key order inside
 // records immaterial) and the source order of the five ordered collections.
-func compareCatalog(actual []byte, want *OVal) string {
+func compareCatalog(actual []byte, want *OVal, graph map[string][]string) string {
 	v, dups, err := ParseOJSON(actual)
 	if err != nil {
 		return "catalog JSON does not parse: " + err.Error()
@@ -33,6 +33,8 @@ func compareCatalog(actual []byte, want *OVal) string {
 		return "duplicate keys in the catalog JSON: " + strings.Join(dups, ", ")
 	}
 	got := Skeleton(v)
+	closeUsedTypes(got, graph)
+	closeUsedTypes(want, graph)
 	for _, c := range orderedCollections {
 		gk, wk := got.Get(c).Keys(), want.Get(c).Keys()
 		if strings.Join(gk, "\x00") != strings.Join(wk, "\x00") {
@@ -124,7 +126,7 @@ func runC04(ctx *Ctx) {
 				continue
 			}
 			ctx.Cov.Hit(fmt.Sprintf("accepted (style %d)", pass))
-			if msg := compareCatalog(res.JSON, want); msg != "" {
+			if msg := compareCatalog(res.JSON, want, m.allOfGraph()); msg != "" {
 				ctx.Violate(Violation{Kind: "wrong-output", Site: "pipeline", What: "catalog differs from what the document declares: " + msg,
 					Input: in, Observed: trunc(string(res.JSON), 2000), Signature: "doc-catalog:" + firstWords(msg, 1)})
 			}
